@@ -494,8 +494,31 @@ func c10FilesTerm(in *c10In, names []string) string {
 }
 
 type c10Res struct {
-	o c10Obs
-	g string
+	o   c10Obs
+	g   string
+	dir string
+	in  *c10In // the input with the base directory filled in (c10Subst)
+}
+
+// c10BaseMark stands for the absolute path of the Casketfile's directory (known only when the case
+// runs): `import @BASE@/sites/a/common.conf` is an import by absolute path
+const c10BaseMark = "@BASE@"
+
+func c10Subst(in *c10In, dir string) *c10In {
+	has := strings.Contains(in.Main, c10BaseMark)
+	for _, c := range in.Files {
+		has = has || strings.Contains(c, c10BaseMark)
+	}
+	if !has {
+		return in
+	}
+	cp := *in
+	cp.Main = strings.ReplaceAll(in.Main, c10BaseMark, dir)
+	cp.Files = map[string]string{}
+	for n, c := range in.Files {
+		cp.Files[n] = strings.ReplaceAll(c, c10BaseMark, dir)
+	}
+	return &cp
 }
 
 var c10ChildInputs []*c10In
@@ -519,18 +542,20 @@ func c10StartPool() {
 		c10Futures[in] = ch
 		go func(in *c10In, ch chan c10Res) {
 			sem <- struct{}{}
-			o, g := c10Exec(in)
+			res := c10Exec(in)
 			<-sem
-			ch <- c10Res{o, g}
+			ch <- res
 		}(in, ch)
 	}
 }
 
 // c10Exec writes the files into a fresh directory, runs the implementation and asks filepath.Glob
-func c10Exec(in *c10In) (o c10Obs, globs string) {
+func c10Exec(in0 *c10In) (res c10Res) {
 	os.MkdirAll(c10Base(), 0o755)
 	dir, _ := os.MkdirTemp(c10Base(), "c10")
 	defer os.RemoveAll(dir)
+	in := c10Subst(in0, dir)
+	res.dir, res.in = dir, in
 	for name, content := range in.Files {
 		os.MkdirAll(filepath.Dir(filepath.Join(dir, name)), 0o755)
 		os.WriteFile(filepath.Join(dir, name), []byte(content), 0o644)
@@ -541,7 +566,7 @@ func c10Exec(in *c10In) (o c10Obs, globs string) {
 	path := filepath.Join(dir, "Casketfile")
 	os.WriteFile(path, []byte(in.Main), 0o644)
 	names := c10Names(in)
-	globs = c10Globs(in, dir, names)
+	res.g = c10Globs(in, dir, names)
 	if in.Child {
 		// a soup that imports itself through `import *` needs ~45 s for its 10000 imports on an idle
 		// machine (each one splices every file of the directory again): leave room for a loaded one
@@ -555,18 +580,20 @@ func c10Exec(in *c10In) (o c10Obs, globs string) {
 		outb, err := cmd.Output()
 		switch {
 		case ctx.Err() != nil:
-			o = c10Obs{Class: "timeout"}
-		case json.Unmarshal(outb, &o) != nil || o.Class == "":
-			o = c10Obs{Class: "killed", Err: fmt.Sprint(err)} // memory cap or crash: did not terminate properly
+			res.o = c10Obs{Class: "timeout"}
+		case json.Unmarshal(outb, &res.o) != nil || res.o.Class == "":
+			res.o = c10Obs{Class: "killed", Err: fmt.Sprint(err)} // memory cap or crash: did not terminate properly
 		}
 		return
 	}
 	blocks, err, p, to := c10ParseGuarded(path, []byte(in.Main))
 	if to {
 		c10Poisoned = true
-		return c10Obs{Class: "timeout"}, globs
+		res.o = c10Obs{Class: "timeout"}
+		return
 	}
-	return c10Observe(blocks, err, p, dir, names), globs
+	res.o = c10Observe(blocks, err, p, dir, names)
+	return
 }
 
 func c10Run(in0 interface{}) Result {
@@ -588,20 +615,19 @@ func c10Run(in0 interface{}) Result {
 		}
 		return Result{Term: cApp("CLex", cRunes(in.Text), cList(toks)), Obs: n, Sig: "lex", Nontrivial: n >= 2, Class: fmt.Sprintf("lex:%dtok", min(n, 5))}
 	}
-	var o c10Obs
-	var globs string
+	var res c10Res
 	names := c10Names(in)
 	if in.Child {
 		c10StartPool()
 		if f, ok := c10Futures[in]; ok {
-			res := <-f
-			o, globs = res.o, res.g
+			res = <-f
 		} else {
-			o, globs = c10Exec(in)
+			res = c10Exec(in)
 		}
 	} else {
-		o, globs = c10Exec(in)
+		res = c10Exec(in)
 	}
+	o, globs := res.o, res.g
 	direct := ""
 	if o.Class == "panic" {
 		direct = "panic: " + o.Panic
@@ -623,7 +649,12 @@ func c10Run(in0 interface{}) Result {
 			sig = "ast:snippet-lines:unexpanded-import"
 		}
 	}
-	term := cApp("CParse", "0", c10EnvTerm(in.Env), cN(c10Cap), cRunes(in.Main), c10FilesTerm(in, names), globs, c10ObsTerm(o), c10ExpTerm(in))
+	// the place of every file: the base directory and id -> relative path of every name next to the Casketfile
+	var nameT []string
+	for i, n := range names {
+		nameT = append(nameT, cPair(cN(uint64(i+1)), cRunes(n)))
+	}
+	term := cApp("CParseAt", cRunes(res.dir), cList(nameT), "0", c10EnvTerm(in.Env), cN(c10Cap), cRunes(res.in.Main), c10FilesTerm(res.in, names), globs, c10ObsTerm(o), c10ExpTerm(in))
 	nblocks := len(o.Blocks)
 	return Result{Term: term, Obs: o, Sig: sig, Direct: direct,
 		Nontrivial: in.HasExp || in.Child || (o.Class == "ok" && nblocks > 0) || len(in.Files) > 0, Class: in.Tag + ":" + o.Class}
@@ -877,6 +908,118 @@ func c10RenderOpt(blocks []c10Block, mode int, braces bool, seed uint64, pImp in
 	return head + main.String(), R.files
 }
 
+// ---- import trees over several directories ----
+// c10RenderDirs: every server block lives in a file of its own directory (imported from the main file
+// by relative path, by absolute path, or through a glob over the directories); runs of its lines are
+// moved into files whose names come from a SMALL pool shared by all directories (common.conf,
+// inc.conf, tls.conf), placed in the importing file's directory, a sub-directory or the parent, and
+// imported by the bare name, ./name, inc/name, ../name or the absolute path.  So the same relative
+// import argument occurs in files of different directories and denotes a different file each time.
+type c10DirRend struct {
+	r     *Rand
+	files map[string]string
+	names []string
+	main  string // the one name preferred in this configuration
+}
+
+func (R *c10DirRend) lines(ls []c10Line, indent, fdir string, depth int) string {
+	r := R.r
+	inl := &c10Rend{r: r, mode: 0, files: map[string]string{}, maxDep: 0}
+	var sb strings.Builder
+	for i := 0; i < len(ls); {
+		if depth >= 3 || !r.Chance(45) {
+			inl.line(ls[i], indent, depth, fdir, &sb)
+			i++
+			continue
+		}
+		k := r.Range(1, 2)
+		if i+k > len(ls) {
+			k = len(ls) - i
+		}
+		name := R.main
+		if r.Chance(30) {
+			name = r.Pick(R.names)
+		}
+		// where the file goes, and how the import statement names it
+		tdir, ref := fdir, name
+		switch r.Intn(8) {
+		case 0:
+			ref = "./" + name
+		case 1:
+			tdir, ref = fdir+"inc/", "inc/"+name
+		case 2:
+			if fdir != "" {
+				tdir = fdir[:strings.LastIndex(strings.TrimSuffix(fdir, "/"), "/")+1]
+				ref = "../" + name
+			}
+		case 3:
+			ref = c10BaseMark + "/" + fdir + name
+		case 4:
+			ref = "{$V_E}" + name
+		}
+		if _, used := R.files[tdir+name]; used || (tdir == "" && name == "Casketfile") {
+			inl.line(ls[i], indent, depth, fdir, &sb) // that directory already has a file of this name
+			i++
+			continue
+		}
+		R.files[tdir+name] = "" // reserve (the content may import further files)
+		R.files[tdir+name] = R.lines(ls[i:i+k], "", tdir, depth+1)
+		i += k
+		sb.WriteString(indent + "import" + c10Sep(r) + ref + c10EOL(r))
+	}
+	return sb.String()
+}
+
+func c10RenderDirs(blocks []c10Block, seed uint64) (string, map[string]string) {
+	r := NewRand(seed)
+	R := &c10DirRend{r: r, files: map[string]string{}, names: []string{"common.conf", "inc.conf", "tls.conf"}}
+	R.main = r.Pick(R.names)
+	dirs := []string{"sites/a/", "sites/b/", "sites/c/", "conf.d/", "vhosts/x/y/", "sites/"}
+	perm := r.Perm(len(dirs))
+	var main strings.Builder
+	viaGlob := len(blocks) > 1 && r.Chance(20) // `import sites/*/site.conf`: the sites in the directories' sorted order
+	if viaGlob {
+		for i := range blocks {
+			perm[i] = i // sites/a/, sites/b/, sites/c/
+		}
+	}
+	for i, b := range blocks {
+		d := dirs[perm[i%len(perm)]]
+		inMain := !viaGlob && r.Chance(15)
+		if inMain {
+			d = ""
+		}
+		var sb strings.Builder
+		for k, key := range b.Keys {
+			if k < len(b.Keys)-1 {
+				sb.WriteString(c10Quote(key+",", r) + " ")
+			} else {
+				sb.WriteString(c10Quote(key, r))
+			}
+		}
+		sb.WriteString(" {" + c10EOL(r))
+		sb.WriteString(R.lines(b.Lines, "\t", d, 0))
+		sb.WriteString("}" + c10EOL(r))
+		switch {
+		case inMain:
+			main.WriteString(sb.String())
+		case viaGlob:
+			R.files[d+"site.conf"] = sb.String()
+		default:
+			R.files[d+"site.conf"] = sb.String()
+			ref := d + "site.conf"
+			if r.Chance(25) {
+				ref = c10BaseMark + "/" + ref
+			}
+			main.WriteString("import " + ref + c10EOL(r))
+		}
+	}
+	if viaGlob {
+		main.WriteString("import sites/*/site.conf\n")
+	}
+	return main.String(), R.files
+}
+
 func c10Mutate(s string, r *Rand) string {
 	rs := []rune(s)
 	for k := r.Range(1, 3); k > 0 && len(rs) > 0; k-- {
@@ -1106,6 +1249,28 @@ func c10Gen(r *Rand, tier string) []interface{} {
 		}
 		out = append(out, &c10In{Kind: "parse", Tag: "cycle", Text: fmt.Sprintf("gen-k%d-w%d", k, where), Main: main, Files: files, Child: true})
 	}
+	// import trees over several directories: same-named files of different content, the same relative
+	// import argument resolved from files of different directories, ./ ../ sub-directory and absolute paths
+	nDirs := 64
+	if tier == "thorough" {
+		nDirs = 1000
+	}
+	for i := 0; i < nDirs; i++ {
+		blocks := mkBlocks(false)
+		if len(blocks) < 2 || r.Chance(50) {
+			blocks = append(blocks, mkBlocks(false)...)
+		}
+		if len(blocks) > 3 {
+			blocks = blocks[:3]
+		}
+		for b := range blocks {
+			for len(blocks[b].Lines) < 3 {
+				blocks[b].Lines = append(blocks[b].Lines, mkLine(0, false))
+			}
+		}
+		main, files := c10RenderDirs(blocks, r.U64()%1000003)
+		out = append(out, &c10In{Kind: "parse", Tag: "ast:dirs", Main: main, Files: files, HasExp: true, Expected: c10Expected(blocks)})
+	}
 	for _, x := range out {
 		if in := x.(*c10In); in.Child {
 			c10ChildInputs = append(c10ChildInputs, in)
@@ -1148,7 +1313,7 @@ func init() {
 	}
 	register(&Property{
 		ID: "C10", Imports: "V.Lib V.C10_Model", Judge: "judge", Shard: 120,
-		Rule: "lexer: random rune strings over a quote/escape/comment/space alphabet (incl. BOM, NBSP, U+2028, invalid UTF-8) through NewDispenser; parser: token soups with importable files, sub-directories and snippets around them through casketfile.Parse (panic capture + watchdog, child process when an import cycle is possible); random ASTs (blocks, keys, directives, quoted/escaped/multi-line/env args, sub-blocks nested to depth 3) rendered with random layout and a random partition into imported files (nested to depth 4, sub-directories, glob groups, env-expanded patterns, whole sites), snippets (incl. snippets importing snippets with directives before and after the inner import, consecutive imports, definitions in inner-first / outer-first / shuffled order and sharing physical lines, and a snippet file), arguments incl. multi-line quoted tokens holding environment references followed by further arguments — the model parses the SAME files through a glob/file oracle and must give the same keys and (file, line, text) tokens or the same error class, and the output must equal the generating AST in texts and line structure; damaged renderings (malformed block structure); generated import cycles of length 1-4 at directive, sub-block and top level; non-trivial = >=2 tokens / parsed blocks / every AST, file or cycle case",
+		Rule: "lexer: random rune strings over a quote/escape/comment/space alphabet (incl. BOM, NBSP, U+2028, invalid UTF-8) through NewDispenser; parser: token soups with importable files, sub-directories and snippets around them through casketfile.Parse (panic capture + watchdog, child process when an import cycle is possible); random ASTs (blocks, keys, directives, quoted/escaped/multi-line/env args, sub-blocks nested to depth 3) rendered with random layout and a random partition into imported files (nested to depth 4, sub-directories, glob groups, env-expanded patterns, whole sites), snippets (incl. snippets importing snippets with directives before and after the inner import, consecutive imports, definitions in inner-first / outer-first / shuffled order and sharing physical lines, and a snippet file), arguments incl. multi-line quoted tokens holding environment references followed by further arguments — the model parses the SAME files through a glob/file oracle and must give the same keys and (file, line, text) tokens or the same error class, and the output must equal the generating AST in texts and line structure; damaged renderings (malformed block structure); generated import cycles of length 1-4 at directive, sub-block and top level; import trees over several directories (every site in its own directory, same-named files of different content, the same relative import argument written in files of different directories, ./ ../ sub-directory, env-expanded and absolute paths, sites through a glob) whose output must equal the generating AST; every parser case carries the place of every file and the kernel checks filepath.Glob's answers for literal patterns against the model's resolution rule; non-trivial = >=2 tokens / parsed blocks / every AST, file or cycle case",
 		Gen:    c10Gen,
 		Decode: func(raw json.RawMessage) (interface{}, error) {
 			in := &c10In{}
